@@ -68,6 +68,9 @@ def do_prop(a):
     for m in pm.CONTRACT_MODULES:
         importlib.import_module(m)
     known = [k for k in load_known() if k.get("property") == prop]
+    from .core import Ctx as _Ctx
+
+    _Ctx.PROVE_KINDS = getattr(pm, "PROVE_KINDS", None)
     from . import contract as CT
 
     CT.KNOWN = [k for k in load_known() if k.get("status") == "known"]
